@@ -10,6 +10,8 @@ Operation vocabulary (JSON lists; h = handle name, p = project index):
   ["dset", h, k, v] ["ddel", h, k] ["dclear", h] ["dreset", h, mapping]
   ["put", h, relpath, text]     job.init(); write a file below the job directory
   ["spbad", h, mapping]         h.statepoint = mapping with an invalid (dotted) key: must raise and change nothing
+  ["badjob", h, sp, action]     in h's project: open_job(sp) with an invalid (dotted) key at some depth, then init / document
+                                write / `with job:`: must raise and leave nothing behind (no empty job directory)
   ["putlink", h, name, target, text]   job.init(); symlink name -> ABSOLUTE path of the job's file `target` (content text)
   ["clear", h] ["reset", h] ["remove", h]
   ["spset", h, k, v] ["spdel", h, k] ["spnest", h, k, k2, v] ["spassign", h, sp]
@@ -140,6 +142,21 @@ class RealWorld:
         elif k == "spbad":
             # a whole state point assignment that must be REJECTED (a key with a dot): no effect at all
             H[op[1]].statepoint = op[2]
+        elif k == "badjob":
+            j = H[op[1]].project.open_job(copy.deepcopy(op[2]))
+            if op[3] == "init":
+                j.init()
+            elif op[3] == "dset":
+                j.doc["k"] = 1
+            elif op[3] == "with":
+                cwd = os.getcwd()
+                try:
+                    with j:
+                        pass
+                finally:
+                    os.chdir(cwd)
+            else:
+                j.init(force=True)
         elif k == "putlink":
             # a symbolic link inside the job directory with an ABSOLUTE target inside the same directory
             # (e.g. latest.dat -> <job>/run_0003.dat); op[4] is the content of the target
@@ -462,7 +479,7 @@ class PlainModel:
         if k == "putlink":
             self._ensure(op[1])["files"][op[2]] = op[4]
             return "ok"
-        if k == "spbad":
+        if k in ("spbad", "badjob"):
             return "InvalidKeyError"
         if k == "clear":
             j = self._job(op[1])
@@ -657,7 +674,12 @@ def gen_ops(rng, length, nproj=2, rich=False, weights=None, allow_plant=False):
                 # the invalid key last, first or in the middle: whatever was applied before it must be undone
                 items = list(bad.items())
                 rng.shuffle(items)
-                ops.append(["spbad", rng.choice(handles), dict(items)])
+                if rng.random() < 0.5:
+                    ops.append(["spbad", rng.choice(handles), dict(items)])
+                else:
+                    if rng.random() < 0.4:   # the invalid key inside a nested mapping
+                        items = [("n", {"ok": 1, rng.choice(["b.c", ".y"]): 2})] + [kv for kv in items if "." not in kv[0]]
+                    ops.append(["badjob", rng.choice(handles), dict(items), rng.choice(["init", "dset", "with", "force"])])
             else:
                 ops.append(["put", rng.choice(handles), rng.choice(FILES), rng.choice(["", "A", "BB"])])
         elif k in ("clear", "reset", "remove"):
@@ -745,7 +767,7 @@ def model_op(op, cached=None):
         return "dreset %s %s" % (op[1], enc_val(op[2]))
     if k == "put":
         return "put %s %s %s" % (op[1], S(op[2]), S(op[3]))
-    if k == "spbad":    # for the model: an operation refused with KeyError and no effect (deleting a key nobody has)
+    if k in ("spbad", "badjob"):    # for the model: an operation refused with KeyError and no effect (deleting a key nobody has)
         return "spdel %s %s" % (op[1], S("\u0001no such key"))
     if k == "putlink":  # for the model a link is the content it resolves to
         return "put %s %s %s" % (op[1], S(op[2]), S(op[4]))
@@ -999,7 +1021,7 @@ def lockstep(ops, ctx, nproj=2, check_handles=True, stop_at_first=True):
             views = rw.handle_views() if not check_handles else views
             hv = {n: {"p": views[n].get("proj"), "id": views[n].get("id")} for n in names if n in views}
             rres = real.split(":")[0]
-            if k == "spbad" and rres == "InvalidKeyError":
+            if k in ("spbad", "badjob") and rres == "InvalidKeyError":
                 rres = "KeyError"
             if blocked and rres.startswith("OSError"):
                 rres = "KeyError"
